@@ -8,7 +8,7 @@
 From Coq Require Import ZArith List Bool Arith Lia.
 From Abm Require Import Base.Sx Grid.Overlap Grid.Grid Grid.Move Grid.Attack Grid.Vis Grid.AttackRun
   Grid.AttackChk Proofs.Grid_proofs Proofs.Move_proofs Proofs.Attack_proofs Proofs.GridChk_proofs
-  Proofs.AttackLim_proofs.
+  Proofs.AttackLim_proofs Proofs.AttackChk_proofs.
 Import ListNotations.
 Open Scope Z_scope.
 
@@ -178,6 +178,53 @@ Theorem C11_selective_full : forall vis s cf att p o l st hits o',
 Proof. exact det_selective_full. Qed.
 Print Assumptions C11_selective_full.
 
+(* restricted selective actor at full accuracy: the count is again the checker's expected_full *)
+Theorem C11_restricted_full : forall vis cm s cf att p o l st hits o',
+  ginv s -> att_pos s att = Some p -> 0 <= c_range cf ->
+  Forall (fun k => 0 <= k <= (2 * c_range cf + 1) * (2 * c_range cf + 1)) l ->
+  c_accuracy cf = HD -> Forall (fun u => u <= HD) (o_unif o) ->
+  det_restricted vis cm s cf att p o l = AOk (st, hits) o' ->
+  Z.of_nat (length hits) = expected_full vis s cf att (ARestricted cm l).
+Proof. exact det_restricted_full. Qed.
+Print Assumptions C11_restricted_full.
+
+(* ---- the executable checker accepts the model's own behaviour ----------------------------------- *)
+(* act_wf: the action lies in the actor's action space (binary: n >= 0; encoding: a dict with
+   non-negative counts; selective: non-negative counts; restricted: range >= 0, cell ids in
+   0..W*W).  limits_ok is the checker's limit clause (per step / per encoding / per cell, for the
+   restricted actor per cell and in total). *)
+Theorem C11_limits_all_actors : forall vis s cf att p o act st hits o1,
+  ginv s -> att_pos s att = Some p -> act_wf cf act ->
+  determine vis s cf att p o act = AOk (st, hits) o1 ->
+  limits_ok s cf att act hits = true /\ (c_stacked cf = false -> NoDup hits).
+Proof. exact determine_limits_ok. Qed.
+Print Assumptions C11_limits_all_actors.
+
+(* one attack, any actor, any visibility function, any admissible draws: every clause of the
+   checker (status, eligibility, targeted cell, limits, no double hit, no skipped target at full
+   accuracy, ammunition, health/active/frame, cell consistency) holds of the model's output *)
+Theorem chk_C11_model : forall vis s cf att o act st hits s' o',
+  ginv s -> act_wf cf act -> 0 <= c_strength cf ->
+  (c_accuracy cf = HD -> Forall (fun u => u <= HD) (o_unif o)) ->
+  process_attack vis s cf att o act = POk st hits s' o' ->
+  chk_attack vis s s' cf att act st hits = 0.
+Proof. exact chk_attack_model. Qed.
+Print Assumptions chk_C11_model.
+
+(* every sequence of attacks, through the snapshot codec (aops_ok: each operation is well formed
+   and its recorded draws are admissible), and the wire entry points *)
+Theorem C11_chk_model_seq : forall s0 ops, ginv s0 -> aops_ok s0 ops ->
+  chk_aops s0 s0 ops (run_aops s0 ops) = 0.
+Proof. exact chk_C11_model_seq. Qed.
+Print Assumptions C11_chk_model_seq.
+
+Theorem C11_run_chk_model : forall xin s0 xops ops,
+  dec_grid_input xin = Some (s0, xops) -> all_some (map dec_aop xops) = Some ops ->
+  ginv s0 -> aops_ok s0 ops ->
+  run_chk_C11 (L [xin; run_attacks xin]) = A 1.
+Proof. exact run_chk_C11_model. Qed.
+Print Assumptions C11_run_chk_model.
+
 (* the code before the repair numbered the cells column by column: refuted on a 1x2 grid *)
 Definition f3_state : gstate :=
   init_state 1 2 [] [ {| a_enc := 1; a_pos := Some (0, 0); a_health := HD; a_active := true;
@@ -194,3 +241,30 @@ Theorem C11_colmajor_refuted :
   /\ (exists s' o', process_attack vis_model f3_state f3_cf 0 f3_orc (ARestricted true [6]) = POk true [] s' o').
 Proof. split; eexists; eexists; vm_compute; reflexivity. Qed.
 Print Assumptions C11_colmajor_refuted.
+
+(* ---- non-vacuity of chk_C11_model: two attacks at full accuracy, half strength; the second kills -- *)
+Definition nv_cf : acfg :=
+  {| c_range := 1; c_strength := HD / 2; c_accuracy := HD; c_simul := 1; c_mapping := [2]; c_stacked := false |}.
+Definition nv_ops : list aop :=
+  [ {| op_att := 0; op_cfg := nv_cf; op_act := ABinary 1;
+       op_orc := {| o_unif := [0]; o_choice := [[1%nat]] |} |};
+    {| op_att := 0; op_cfg := nv_cf; op_act := ARestricted false [6; 0];
+       op_orc := {| o_unif := [HD]; o_choice := [[1%nat]] |} |} ].
+
+Example C11_nonvacuous_chk :
+  aops_ok f3_state nv_ops /\ chk_aops f3_state f3_state nv_ops (run_aops f3_state nv_ops) = 0 /\
+  match process_attack vis_model f3_state nv_cf 0 {| o_unif := [0]; o_choice := [[1%nat]] |} (ABinary 1) with
+  | POk st hits s' _ => st = true /\ hits = [1%nat] /\ option_map a_health (agent s' 1) = Some (HD / 2)
+  | _ => False
+  end.
+Proof.
+  split; [|split; vm_compute; auto].
+  cbn [aops_ok nv_ops]. split.
+  - unfold aop_wf. cbn [op_cfg op_act op_orc act_wf nv_cf c_strength c_accuracy o_unif].
+    split; [lia|]. split; [unfold HD; apply Z.div_pos; lia|]. intros _. repeat constructor. unfold HD. lia.
+  - set (r := process_attack _ _ _ _ _ _). vm_compute in r. subst r. cbv beta iota. split.
+    + unfold aop_wf. cbn [op_cfg op_act op_orc act_wf nv_cf c_strength c_accuracy c_range o_unif].
+      split; [split; [lia|repeat constructor; lia]|].
+      split; [unfold HD; apply Z.div_pos; lia|]. intros _. repeat constructor. lia.
+    + set (r := process_attack _ _ _ _ _ _). vm_compute in r. subst r. exact I.
+Qed.
